@@ -94,6 +94,7 @@ def showErr : Err → String
   | .resetPosition => "err reset-position"
   | .unknownPreset n => s!"err unknown-preset {encodeStr n}"
   | .remote => "err remote"
+  | .badExtends => "err bad-extends"
   | .outOfFuel => "err out-of-fuel"
 
 def parseFiles : Nat → List String → Option (List (Name × Value) × List String)
